@@ -15,7 +15,7 @@ RULE = ("G2 concrete Sids of every type that has a path template, values incl. m
         "concrete Sid that has a path.")
 ASSUME = ["roots are the longest common literal prefix of a configuration's templates",
           "R8 renderer applies the configured one-to-one value mappings and defaults"]
-BUDGET = {"quick": 16000, "thorough": 240000}
+BUDGET = {"quick": 16000, "thorough": 1200000}
 NSHARDS = 16
 NAMES = ["ophelia", "d'agger", "x_rig", "x_rig_WORK", "a_b", "model", "char_x", "v001", "WORK", "b", "a-b", "a.b", "sq010_sh0010", "w", "p_v001", "x_"]
 
